@@ -53,6 +53,9 @@ namespace {
     std::vector<std::unique_ptr<Task>> T;
     int g_entered = 0, g_completed = 0;
     std::vector<uint64_t> g_live_ids;
+    bool g_spin_waits = false;
+    bool g_kf_starvation = false;
+    int g_active_spinners = 0;
     int g_policy = 0;
     int g_workers = 1;
 
@@ -114,7 +117,25 @@ namespace {
             VH_CHECK((uint64_t) pika::threads::detail::get_self_id().get() == my_id, "C01.identity",
                 "task %d changed identity across a yield", idx);
         }
-        if (t.wait_for >= 0 && t.wait_for < idx && T[(size_t) t.wait_for])
+        // (a spin-wait across priority classes can starve its target by design: only between
+        // normal-priority tasks)
+        if (t.wait_for >= 0 && t.wait_for < idx && T[(size_t) t.wait_for] && (t.prio & 4) && (t.prio & 3) == 0 &&
+            (T[(size_t) t.wait_for]->prio & 3) == 0 && g_spin_waits && (g_active_spinners == 0 || g_kf_starvation))
+        {
+            // At most one task polls at a time in the main workload: two or more tasks that keep
+            // yielding on one worker starve every task that sits in another thread's sub-queue of the
+            // worker's (multi-producer) queue - known finding, sub-workload kf_yield_starvation.
+            g_active_spinners++;
+            // spin-wait (yield_k: after 16 unsuccessful polls the task yields with the boost hint,
+            // later it alternates boost / plain yields) until the other task has completed
+            Task* other = T[(size_t) t.wait_for].get();
+            phase_end(t);
+            pika::util::yield_while([other] { return other->completions == 0; }, "C01 spin wait");
+            phase_begin(t, idx);
+            g_active_spinners--;
+            probe("spin_waited_for_other_task");
+        }
+        else if (t.wait_for >= 0 && t.wait_for < idx && T[(size_t) t.wait_for])
         {
             phase_end(t);
             T[(size_t) t.wait_for]->done.wait();
@@ -198,6 +219,7 @@ namespace {
         ctx.params.set("rt.min_thread_count", ntasks + 16);
         pk::draw_runtime(ctx, ctx.thorough ? 16 : 8);
         int nsubmitters = (int) ctx.params.set("c01.os_submitters", r.range(0, 2));
+        bool spin_waits = ctx.params.set("c01.spin_waits", r.chance(1, 2) ? 1 : 0) != 0;
         if (!ctx.program_from_replay)
         {
             Program p;
@@ -206,11 +228,11 @@ namespace {
                 Op op;
                 op.v[0] = i == 0 || r.chance(1, 5) ? -1 : (int64_t) r.below((uint64_t) i);
                 op.v[1] = (int64_t) r.below(API_COUNT);
-                op.v[2] = r.chance(2, 3) ? 0 : (int64_t) r.below(4);
+                op.v[2] = (r.chance(2, 3) ? 0 : (int64_t) r.below(4)) | (spin_waits && r.chance(1, 2) ? 4 : 0);
                 op.v[3] = r.chance(2, 3) ? 0 : (int64_t) r.below(4);
                 op.v[4] = r.chance(1, 4) ? (int64_t) r.below(16) : -1;
                 op.v[5] = r.chance(1, 2) ? 0 : r.range(1, 4);
-                op.v[6] = i > 0 && r.chance(1, 6) ? (int64_t) r.below((uint64_t) i) : -1;
+                op.v[6] = i > 0 && r.chance(1, 4) ? (int64_t) r.below((uint64_t) i) : -1;
                 op.v[7] = (int64_t) r.below((uint64_t) nsubmitters + 1);
                 p.push_back(op);
             }
@@ -233,6 +255,16 @@ namespace {
         };
         g_policy = pk::policy(ctx);
         g_workers = pk::workers(ctx);
+        // A polling task is re-enqueued through its worker's own sub-queue of the worker's multi-producer
+        // queue, which try_dequeue prefers over the sub-queues other threads enqueued into: on a worker that
+        // nobody steals from, the awaited task can starve forever (known finding, sub-workload
+        // kf_yield_starvation). The main workload polls only where another worker can steal.
+        {
+            int64_t mode = ctx.params.get("rt.mode", -1);
+            bool steals = g_policy != pk::POL_STATIC && g_policy != pk::POL_STATIC_PRIO && (mode == -1 || (mode & 0x4)) &&
+                g_workers >= 2;
+            g_spin_waits = spin_waits && (steals || g_kf_starvation);
+        }
         pk::start(ctx);
         // build the forest; a deleted parent turns its children into roots
         int n = (int) ctx.program.size();
@@ -246,6 +278,10 @@ namespace {
             t->api = (int) (((op.v[1] % API_COUNT) + API_COUNT) % API_COUNT);
             // known finding (C13): detached pika::thread is fine, but keep shared-priority simple
             t->prio = (int) op.v[2];
+            // a spin-waiting task never blocks: it would starve every low-priority task (they only
+            // run when nothing else is pending) and whatever depends on one. Runs with spin-waits
+            // therefore have no low-priority tasks.
+            if (ctx.params.get("c01.spin_waits") && (t->prio & 3) == 1) t->prio &= ~3;
             t->stack = (int) op.v[3];
             t->hint = (int) op.v[4];
             t->yields = (int) (op.v[5] < 0 ? 0 : op.v[5] > 8 ? 8 : op.v[5]);
@@ -274,8 +310,18 @@ namespace {
                         std::this_thread::yield();
                     }
             });
-        for (int i : roots)
-            if (T[(size_t) i]->submitter == 0 || T[(size_t) i]->submitter > nsubmitters) submit(i);
+        if (g_kf_starvation && n == 4)
+        {
+            submit(0);
+            while (g_completed < 1) main_pause(3000000);
+            submit(2);
+            submit(3);
+            while (g_entered < 3) main_pause(3000000);
+            submit(1);
+        }
+        else
+            for (int i : roots)
+                if (T[(size_t) i]->submitter == 0 || T[(size_t) i]->submitter > nsubmitters) submit(i);
         for (auto& th : subs) th.join();
         while (g_completed < n) main_pause(3000000);
         sim_quiesce(3000000);
@@ -299,6 +345,44 @@ namespace {
         focus_report();
     }
 
+    // known finding: two yielding pollers on one worker starve a task created with run_now
+    // (register_thread / pika::thread) from another thread
+    void run_kf_starvation(RunCtx& ctx)
+    {
+        g_kf_starvation = true;
+        ctx.params.force("rt.workers", 1);
+        ctx.params.force("c01.spin_waits", 1);
+        ctx.params.force("c01.os_submitters", 0);
+        if (!ctx.program_from_replay)
+        {
+            // task 0: register_thread from the main thread (creates the main thread's sub-queue in the
+            // worker's queue first); tasks 2 and 3: submitted with execute, both poll (yield_while)
+            // for task 1; task 1: register_thread from the main thread once both pollers run.
+            Program p;
+            Op t0;
+            t0.v[0] = -1;
+            t0.v[1] = API_REGISTER_THREAD;
+            t0.v[4] = -1;
+            t0.v[6] = -1;
+            p.push_back(t0);
+            p.push_back(t0);
+            for (int i = 0; i < 2; i++)
+            {
+                Op s;
+                s.v[0] = -1;
+                s.v[1] = API_EXECUTE;
+                s.v[2] = 4;
+                s.v[4] = -1;
+                s.v[6] = 1;
+                p.push_back(s);
+            }
+            ctx.program = p;
+            ctx.program_from_replay = true;
+        }
+        run_forest(ctx);
+    }
+
     Registrar r1(Workload{"C01", "forest", 100, run_forest, pk::preload});
+    Registrar r2(Workload{"C01", "kf_yield_starvation", 0, run_kf_starvation, pk::preload});
 
 }    // namespace
